@@ -454,6 +454,7 @@ type Opts struct {
 	NoBlobKids   bool
 	NoLegacy     bool // no schema1 and no OCI artifact manifests
 	Loops        bool // referrers that are indexes over their own subject
+	ForceLoop    bool // always generate referrers and, where the shape allows it, such a loop
 }
 
 // Graph generates an image graph with optional referrers and digest-tags.
@@ -501,7 +502,7 @@ func (g *G) Graph(o Opts) *Graph {
 		gr.Shape = "artifact"
 		gr.Root = g.Artifact(nil, "application/vnd.example.art")
 	}
-	if !o.NoReferrers && g.c(2, "referrers") == 1 {
+	if !o.NoReferrers && (o.ForceLoop || g.c(2, "referrers") == 1) {
 		targets := []*Node{gr.Root}
 		targets = append(targets, gr.Root.Children...)
 		types := []string{"application/vnd.example.sbom", "application/vnd.example.sig", "application/vnd.example.att"}
@@ -515,7 +516,7 @@ func (g *G) Graph(o Opts) *Graph {
 		}
 		// a referrer that is an index over its own subject and one more image: copying it meets its subject
 		// again while the subject's copy is still in progress
-		if o.Loops && g.c(4, "loopref") == 1 {
+		if o.Loops && (o.ForceLoop || g.c(4, "loopref") == 1) {
 			subj := targets[g.c(len(targets), "subj")]
 			if subj.Kind != "schema1" && subj.MediaType != MTOCIArtifact {
 				gr.Referrers = append(gr.Referrers, g.ReferrerIndex(subj, []*Node{subj, g.Image(false)}, types[g.c(len(types), "atype")]))
